@@ -135,11 +135,15 @@ def c03(prog, obs, impl):
         # to a region of equal shape: each gives q; one well to n wells: it gives n * q)
         if op['op'] == 'transfer' and 'p' in op['src'] and op['src']['p'] in dumps:
             sp = dumps[op['src']['p']]
-            cs = [sp['wells'][a * sp['cols'] + b_] for a, b_ in dsl.region_cells(op['src']['r'], sp['cols'])]
+            cells_ = [tuple(x) for x in dsl.region_cells(op['src']['r'], sp['cols'])]
+            cs = [sp['wells'][a * sp['cols'] + b_] for a, b_ in cells_]
             q, b = dsl.qty_val(op['q']), op['q']['b']
             nd = 1 if 'c' in op['dst'] else len(dsl.region_cells(op['dst']['r'], 0))
             need = q * (nd if len(cs) == 1 else 1)
-            short = [j for j, c in enumerate(cs) if need > measure(subs, c, b) * (1 + F(1, 10**6)) + F(1, 10**15)]
+            # (a well listed k times in the source region gives k times)
+            short = [j for j, c in enumerate(cs) if need * cells_.count(cells_[j]) > measure(subs, c, b) * (1 + F(1, 10**6)) + F(1, 10**15)]
+            if short:
+                need = need * cells_.count(cells_[short[0]])
             # (a single well written as a one-element list has shape (1,): the library refuses that pairing with RuntimeError whatever it holds)
             odd = any('list' in r and len(r['list']) == 1 for r in (op['src']['r'], op['dst'].get('r', {})))
             if q > 0 and short and (o['ok'] or (o['exc'] != 'ValueError' and not odd)):
